@@ -305,6 +305,10 @@ class Verdict:
         ev = dict(property_id=self.prop, tier=self.tier, seed=SEED, level=level, coverage=cov, assumptions=self.assumptions,
                   wall_s=round(time.time() - self.t0, 2), violations=len(self.violations), known_findings=[f.get('id') for f, _, _ in self.known], machinery_errors=self.errors)
         json.dump(ev, open(os.path.join(EVID, self.prop + '.json'), 'w'), indent=1)
+        # evidence/<id>.json always describes the latest run; a copy per tier is kept next to it so that a quick run does not erase the
+        # record of the last thorough one
+        os.makedirs(os.path.join(EVID, self.tier), exist_ok=True)
+        json.dump(ev, open(os.path.join(EVID, self.tier, self.prop + '.json'), 'w'), indent=1)
         for l in lines: print(l)
         if self.errors:
             for e in self.errors: print('vf: machinery error: ' + e[:3000])
